@@ -213,3 +213,11 @@ pub fn dualmsm_batch_verify_lengths(ng: usize, np: usize) -> bool {
     println!("DualMSM::batch_verify({ng} guards, {np} params) -> {:?}", r);
     r.is_err()
 }
+
+/// `ParamsKZG::read_custom(Processed)` on a 4-byte input whose header says k.
+pub fn params_read_custom_k(k: u32) -> bool {
+    let bytes = k.to_le_bytes();
+    let r = quiet(|| ParamsKZG::<midnight_curves::Bls12>::read_custom(&mut &bytes[..], SerdeFormat::Processed).map(|_| ()).map_err(|e| e.to_string()));
+    println!("ParamsKZG::read_custom(k={k}, Processed) on 4 bytes -> {:?}", r);
+    r.is_err()
+}
